@@ -238,6 +238,10 @@ def w3(ctx, type_paths, rule="W3"):
                 continue
             k = W.int_lit(toks[-1])
             if k is None:
+                # a named constant (or `CONST as T`) after the division sign
+                i_div = len(toks) - 1 - toks[::-1].index("/")
+                k = wm.int_expr(toks[i_div + 1 :], it)
+            if k is None:
                 continue
             inner = wm.generic_inner(f["tyt"], "Vec")
             if inner is None:
